@@ -10,6 +10,21 @@ NOTE = ("Trusted: Coq 8.16.1 kernel + vm_compute; no axioms (every pinned theore
 TECH = "machine-checked proof in Coq (Rocq) + model/implementation correspondence check"
 
 CLAIMS = {
+ "C01": ("Theorems (Props/C01.v): for every list of sections with well-formed headers from which the model builds a machine and every "
+         "interval, each returned pair is contiguous and equal-length and its i-th reference base is aligned by some block of some chain to "
+         "its i-th query base (block meaning spelt out with forward = size-1-local on '-'); no bound on chains, blocks or coordinates "
+         "(u64 range, checked arithmetic). The machine built from a stream of line reads is the machine of the parsed sections. Tied to "
+         "the code by model/implementation comparison on generated files x boundary intervals and a Python oracle of the alignment relation.",
+         "DESIGN.md 5 (C01), 4.2 (L2-L5)"),
+ "C02": ("Theorems (Props/C02.v): liftover returns a value and the multiset of returned base pairings equals, pairing by pairing, the number "
+         "of blocks on the same contig and strand aligning that base inside the interval (holds for every well-formed file and every interval); "
+         "for non-empty intervals 'no mapping' iff that set is empty. The proof goes through rust-lapper's find = filter of the sorted vector "
+         "(binary search, max_len window, early break all proved). Tied to the code as C01, with files weighted towards one very long block "
+         "among many short.", "DESIGN.md 5 (C02), 4.2 (L3, L5)"),
+ "C03": ("Theorems (Props/C03.v): a machine is built from a stream of line reads only if the grammar yields no error, every header is well "
+         "formed and every chain adds up on both sides, and it is then exactly the section-level machine; any grammar error refuses the file; "
+         "inconsistent contig sizes refuse it. Acceptance of canonical files is covered at line level by C13_file + C03_grammatical. Tied to the "
+         "code by canonical files (must be accepted) and the corruption catalogue at sampled positions (must be refused).", "DESIGN.md 5 (C03)"),
  "C04": ("Five theorems (Props/C04.v): the drain of the step-through of any section with a well-formed header terminates and equals a "
          "six-line closed-form specification in offsets (every record list, all strands, values up to u64::MAX with checked moves); the k-th "
          "pair is in closed form (running sums of size+gap); completes without error iff the records add up to both extents; otherwise correct "
@@ -19,10 +34,38 @@ CLAIMS = {
          "first error equal the line grammar spec_sections (a recursive function over classified lines carrying the error kinds, 1-based blank "
          "line number and offending text), and such a drain exists without panic. Tied to the code by draining sections() on generated and "
          "(thorough) exhaustively enumerated line strings, compared with the model and with a Python grammar oracle.", "DESIGN.md 5 (C05), 4.2 (L6)"),
+ "C06": ("Five theorems (Props/C06.v) over a model in which every Rust panic site is an explicit Panic branch: the section iterator never "
+         "panics from any reachable state (also after errors), building from any stream of line reads returns a machine or an error, lifting "
+         "any well-formed interval over any built machine returns a value, printing a constructed record never hits its expect()s. Tied to the "
+         "code by catch_unwind runs in debug and release on valid, mutated, grammar-random and byte-random streams, every iterator driven past "
+         "errors. Partial: allocation failure and stack exhaustion are not modelled; panic sites are transcribed by hand.", "DESIGN.md 5 (C06)"),
  "C07": ("Three theorems (Props/C07.v): the section drain ends within lines+2 calls with at most one item per line; the step-through drain "
          "ends with at most records+1 items; after an error the step-through yields nothing; plus _refuted witnesses that the pre-fix code was "
          "unbounded. Tied to the code by capped drains of all three iterators on generated streams/sections (incl. streams ending inside a "
          "section, sections not adding up or out of bounds).", "DESIGN.md 5 (C07)"),
+ "C08": ("Partial. Three theorems (Props/C08.v): cutting an accepted stream after any number of whole lines fails or builds exactly the machine "
+         "of a whole-chain prefix; a hard read failure anywhere refuses the file; inserting Interrupted errors in any fault-free chunk schedule "
+         "leaves the stream of line reads unchanged. A cut inside a line is not proved in Coq; it is decided on every byte offset of every "
+         "generated file by the correspondence check and the truncation oracle (machine equal to some whole-chain prefix, or error).",
+         "DESIGN.md 5 (C08)"),
+ "C09": ("Three theorems (Props/C09.v), corollaries of the multiset theorem: for every file, interval and cut position the base pairings of the "
+         "whole are the multiset union of those of the two parts; a base maps identically through any two intervals containing it; every "
+         "returned reference interval lies inside the requested one. Tied to the code on splits at block boundaries, inside gaps, at the ends, and "
+         "down to single bases.", "DESIGN.md 5 (C09)"),
+ "C10": ("Three theorems (Props/C10.v): the role-exchanged file aligns qb to rb exactly as often as the file aligns rb to qb (all strand "
+         "combinations), it is well formed when the file is, and the two machines return the mirrored pairings through any intervals containing "
+         "the bases. Tied to the code by building each generated file with its twin and lifting every expected pair back.", "DESIGN.md 5 (C10)"),
+ "C11": ("Three theorems (Props/C11.v): results over a file are the multiset union of results over any partition of its chains; permuting the "
+         "chains preserves all pairings; the pairs of one answer are sorted by forward reference start. Determinism is by the model being a "
+         "function and is exercised on the code by rebuilding in-process and re-running every case in other processes (fresh hash seeds) with "
+         "verbatim comparison.", "DESIGN.md 5 (C11)"),
+ "C12": ("Three theorems (Props/C12.v): for every chunk/interrupt schedule without a hard failure the stream of line reads equals that of the "
+         "flat bytes (std read_until transcribed); a raw read reports exactly the bytes consumed and returns the text without LF / CRLF; a blank "
+         "line between sections changes the grammar's items only in quoted line numbers. LF vs CRLF and final-newline independence are covered by "
+         "the raw-read theorem plus the correspondence check over all encodings and chunkings.", "DESIGN.md 5 (C12), 4.2 (L8)"),
+ "C13": ("Six theorems (Props/C13.v): decimal print/parse, header, data-record and line round trips for everything the parser accepts (hence "
+         "canonical text prints back byte-identically), and re-serialised sections parse back to equal sections for every accepted file. Tied to "
+         "the code with non-canonical spellings (leading zeros, '+'), odd contig names and whole files.", "DESIGN.md 5 (C13), 4.2 (L7)"),
  "C14": ("Six theorems (Props/C14.v): every accepted header has start<=end<=size<=u64::MAX on both sides; the record constructor and the data "
          "line parser fix kind/gaps/field count exactly; a sequence with end<=size converts to the stated interval; end>size never wraps or "
          "panics (error on '-', literal interval on '+'). Tied to the code in debug and release builds on generated constructor calls and lines.",
@@ -31,6 +74,18 @@ CLAIMS = {
          "whole u64 range, proved with no axioms about the Gallina model of interval_pair.rs and of the omics-coordinate functions it calls; tied "
          "to the code by running both on generated calls (boundary positions 0..3 and u64::MAX-3..u64::MAX, all strand pairs, all clamp shapes) "
          "and by an independent Python oracle of the property.", "DESIGN.md 5 (C15), 4.2 (L1, L4)"),
+ "C16": ("Three theorems (Props/C16.v): the dictionaries of a built machine are exactly the (name, size) pairs of the headers, per side; a "
+         "file declaring a contig with two sizes never yields a machine; every returned coordinate is at most the reported size of its contig. "
+         "Tied to the code on generated files incl. shared names across sides and redeclared sizes.", "DESIGN.md 5 (C16)"),
+ "C17": ("Three theorems (Props/C17.v): for every history of reader operations the reads consumed by the operations, in order, followed by "
+         "what is left, are the stream (every line observed exactly once); single-line methods advance by one line; yielding a section consumes "
+         "nothing beyond its terminating line. Tied to the code by random operation histories with the underlying cursor position observed after "
+         "every operation.", "DESIGN.md 5 (C17)"),
+ "C18": ("Partial. Two theorems (Props/C18.v): for read-only clients of one shared machine every schedule yields per thread exactly the "
+         "sequential answers (schedule independence). The premise (a liftover step writes nothing shared) is checked on the code: compile-time "
+         "Send+Sync obligations for Machine, pairs and all public error types, the crate compiled with unsafe_code forbidden, a token audit for "
+         "interior mutability, and real 2-16 thread runs compared with sequential runs and with the model. Real hardware interleavings are not "
+         "exhibited by the model.", "DESIGN.md 5 (C18)"),
 }
 
 ALL = ["C%02d" % i for i in range(1, 19)]
